@@ -8,4 +8,9 @@ CLAIMED = {
         'note': PROOF_NOTE + 'Single column, phase in [0,2pi], return_good=False in the unbounded unit; multi-column / good-cycle paths bounded or under C13.',
     },
 }
+CLAIMED['C16'] = {
+    'technique': 'deductive: per-function contracts (set-theoretic definitions) on 13 map_*/project_* functions + get_subset_vector/get_chain_vector, VCs from the real source discharged by z3/cvc5, round-trip lemmas over the contracts; bounded stand-in: every selection vector <= 7/12 x 3 layouts against a reference model',
+    'text': 'Each index map / projection is verified against its set-theoretic contract for all vector lengths and all indices (loops by invariants); the round-trip statements are lemmas over those contracts. Five composite functions built from symbolic-length comprehensions are covered by the bounded stand-in only (stated in evidence).',
+    'note': PROOF_NOTE + 'Subset-vector well-formedness is assumed in bijection form; that the constructors produce it is checked by the bounded stand-in.',
+}
 PENDING_REASON = {}
